@@ -208,6 +208,12 @@ class ReducerSpec:
         kw = dict(duration=cfg["duration"], inclusive=False, inplace=cfg["inplace"])
         if self.kind == "trace":
             return CumulativeTraceReducer(cfg["dt"], 2.0, 1.0, 1.0, **kw)
+        if self.kind == "nearest":
+            from inferno.observe import NearestTraceReducer
+            return NearestTraceReducer(cfg["dt"], 3.0, 0.5, 1.0, **kw)
+        if self.kind == "ema":
+            from inferno.observe import EMAReducer
+            return EMAReducer(cfg["dt"], 0.25, **kw)
         if self.kind == "pass":
             return PassthroughReducer(cfg["dt"], **kw)
         if self.kind == "event":
@@ -317,6 +323,10 @@ def specs(tier):
     out += [NeuronSpec(n, c) for n, c in (("LIF", LIF), ("ALIF", ALIF), ("QIF", QIF), ("AdEx", AdEx))]
     out += [ConnectionSpec()]
     out += [ReducerSpec(k) for k in ("trace", "pass", "event", "ca")]
+    if tier != "quick":
+        from inferno.neural import GLIF1, GLIF2, Izhikevich, EIF
+        out += [NeuronSpec(n, c) for n, c in (("GLIF1", GLIF1), ("GLIF2", GLIF2), ("Izhikevich", Izhikevich), ("EIF", EIF))]
+        out += [ReducerSpec(k) for k in ("nearest", "ema")]
     return out
 
 
